@@ -72,6 +72,17 @@ def peers(tier):
     for kn, keys, kw in (KEY_CONFIGS[4], KEY_CONFIGS[6], KEY_CONFIGS[8]):
         for label in sorted(CERT_FIELD_SETS):
             out.append({'kn': '%s-%s' % (kn, label), 'kex': KEX_VARIANTS[0], 'key': keys, 'enc': ENC_VARIANTS[0], 'mac': MAC_VARIANTS[0], 'hk': dict(kw, cert_fields=label), 'gex': None})
+    # group exchange as the ONLY key exchange the host-key probes can use (alone; between a post-quantum method and the strict-KEX marker)
+    for (kn, keys, kw) in KEY_CONFIGS[1:5]:
+        for kexl in (['diffie-hellman-group-exchange-sha256'], ['sntrup761x25519-sha512@openssh.com', 'diffie-hellman-group-exchange-sha256', 'kex-strict-s-v00@openssh.com'],
+                     ['diffie-hellman-group-exchange-sha1', 'diffie-hellman-group-exchange-sha256']):
+            out.append({'kn': kn + '-gexonly', 'kex': kexl, 'key': keys, 'enc': ENC_VARIANTS[0], 'mac': MAC_VARIANTS[0], 'hk': kw,
+                        'gex': 2048 if len([k for k in kexl if 'group-exchange' in k]) == 1 else {GEX1: 2048, GEX256: 3072}})
+    # names at the length RFC 4251 allows at most (64), one below and one above, in every list
+    for n in (63, 64, 65):
+        nm = lambda c: (c + '-' + 'x' * 80)[:n - 12] + '@example.org'
+        out.append({'kn': 'names-of-%d-characters' % n, 'kex': ['curve25519-sha256', nm('kex')], 'key': ['ssh-ed25519', nm('key')], 'enc': [nm('enc'), 'aes256-ctr'],
+                    'mac': ['hmac-sha2-256', nm('mac'), 'hmac-sha2-512'], 'hk': {}, 'gex': None})
     # legal but unusual shapes: an empty name-list (AEAD-only server without MACs, GSSAPI-only server without host keys, ...)
     for cat in ('kex', 'key', 'enc', 'mac'):
         spec = {'kn': 'empty-' + cat, 'kex': ['curve25519-sha256'], 'key': ['ssh-ed25519'], 'enc': ['aes256-gcm@openssh.com'],
